@@ -30,7 +30,7 @@ from ..cfg import cfg_of
 from ..fold import Folder, RegexConst, Unfoldable, group_count
 from ..loader import AnalysisError, FuncInfo, dotted, norm, walk_no_nested
 from ..report import Ctx
-from ._c15_helpers import TEXT_KEYS, Flow, Leaf, Scope, codec_kind, escapes, expand, slice_peel, text_class
+from ._c15_helpers import TEXT_KEYS, Flow, Leaf, Scope, codec_kind, escapes, expand, slice_peel, table_values, text_class
 
 LEVEL_TEXT = (
     "Static decision of structural clauses of C15 on /repo's current source: (R15.1) for every URL component, the "
@@ -47,7 +47,16 @@ LEVEL_TEXT = (
     "tunnelled text in PATH_INFO / SCRIPT_NAME / QUERY_STRING and the request-side readers let none of it escape "
     "undecoded; (R15.6) DispatcherMiddleware writes back only untouched pieces of the tunnelled values it read, "
     "SCRIPT_NAME first (segments peeled off the right end only into the remainder), on every path to the mounted app. "
-    "Helper functions the judged functions call are looked into (one level of extraction, arguments bound). It decides these necessary clauses, not the fixpoint law "
+    "Helper functions the judged functions call are looked into (one level of extraction, arguments bound). Values are "
+    "followed through the containers that hold them: list / tuple / dict displays, what is put into them in place "
+    "(append / extend / insert / item and slice stores / update / setdefault), str.join, %-formatting and str.format, "
+    "filter / map / chain / sorted / reversed, generator functions (the yielded values), rows of a literal table a loop "
+    "or comprehension variable runs over (environ keys included); bytes(s, codec) / str(b, codec) / codecs.encode / "
+    "codecs.decode count as the codec steps they abbreviate; the urlunsplit argument may be a 5-sequence overwritten by "
+    "constant position, parts._replace(...), SplitResult(...), or `.geturl()` on one of these; the walk of the partial "
+    "unquoter may also go by index (range(len(pieces)), stride-2 in-place rewrite). A value whose origin is a call that "
+    "is not looked into, a component handed to something that is not followed to urlunsplit, or an emission that "
+    "cannot be classified is an analysis error, not a violation. It decides these necessary clauses, not the fixpoint law "
     "over all URLs, not IDNA, and not the dispatcher's longest-mount choice / concatenation invariant."
 )
 TRUSTED = [
@@ -98,9 +107,49 @@ def _module_of(repo, node: ast.AST, default):
 
 def _fold_safe(folder: Folder, fi: FuncInfo, call: ast.Call, pos: int = 1, default: str = "/", module=None, scope: Scope | None = None) -> str:
     e = astq.arg_or_kw(call, pos, "safe")
+    holder = call
+    while holder is not None and not isinstance(holder, (ast.FunctionDef, ast.AsyncFunctionDef)):
+        holder = getattr(holder, "_parent", None)  # the function the call is written in
+    holder = holder or (scope.fn if scope is not None else fi.node)
+    home = module or fi.module
+
+    def local_value(n: ast.AST) -> ast.AST:
+        """a name that is bound once in the function (or once at module level) stands for that value."""
+        if isinstance(n, ast.Name):
+            vals = [v for _, v in astq.assigns_to(holder, n.id)]
+            if len(vals) == 1 and vals[0] is not None:
+                return vals[0]
+            if not vals and len(home.assigns.get(n.id, [])) == 1:
+                return home.assigns[n.id][0]
+        return n
+
+    if e is None:
+        # `quote(x, **options)`: the keyword may sit in a mapping that is spread into the call
+        for kw in call.keywords:
+            if kw.arg is not None:
+                continue
+            d = local_value(kw.value)
+            given: dict[str, ast.AST] | None = None
+            if isinstance(d, ast.Dict) and all(k is not None and astq.const_str(k) is not None for k in d.keys):
+                given = {astq.const_str(k): v for k, v in zip(d.keys, d.values)}  # type: ignore[misc]
+            elif isinstance(d, ast.Call) and astq.is_name(d.func, "dict") and not d.args and all(k.arg is not None for k in d.keywords):
+                given = {k.arg: k.value for k in d.keywords}  # type: ignore[misc]
+            if given is None:
+                raise AnalysisError(f"{fi.fq}: `{norm(call)[:60]}` spreads `{norm(kw.value)[:30]}` into the call: cannot see whether it sets the safe set")
+            if "safe" in given:
+                e = given["safe"]
     if e is None:
         return default
     env = {}
+    # locals of the function that are bound once to a foldable constant take part in the folding
+    for n in ast.walk(e):
+        if isinstance(n, ast.Name):
+            v = local_value(n)
+            if v is not n:
+                try:
+                    env[n.id] = folder.expr(home, v)
+                except Unfoldable:
+                    pass
     if scope is not None:
         # the call sits in a helper: parameters bound to foldable arguments take part in the folding
         for name, (arg, asc) in scope.bind.items():
@@ -376,33 +425,112 @@ def _split_result_attr(flow: Flow, leaf: Leaf) -> str | None:
     return None
 
 
-def _unsplit_slots(flow: Flow, fi: FuncInfo) -> tuple[ast.Call, list[ast.AST]]:
-    cs = _calls_to(flow, fi, "urllib.parse.urlunsplit")
-    if len(cs) != 1:
-        raise AnalysisError(f"{fi.fq}: expected one urlunsplit call, found {len(cs)}")
-    arg = cs[0].args[0] if cs[0].args else None
+def _is_split_result(flow: Flow, e: ast.AST) -> bool:
+    src = flow.leaves(e)
+    return bool(src) and all(x.kind == "call" and x.key == "urllib.parse.urlsplit" and not x.ops for x in src)
+
+
+def _field_reads(recv: ast.AST, anchor: ast.AST) -> list[ast.AST]:
+    """`recv.scheme`, ..., `recv.fragment` as expressions (the fields a split result carries over as they are)."""
+    out: list[ast.AST] = []
+    for name in SLOT:
+        a = ast.copy_location(ast.Attribute(value=recv, attr=name, ctx=ast.Load()), anchor)
+        a._parent = getattr(anchor, "_parent", None)  # type: ignore[attr-defined]
+        out.append(a)
+    return out
+
+
+def _five(flow: Flow, fi: FuncInfo, arg: ast.AST | None, call: ast.Call, depth: int = 0) -> list[ast.AST]:
+    """the five component expressions of what is handed to urlunsplit, however the 5-sequence is spelled: a literal
+    tuple / list, `parts._replace(field=...)`, `SplitResult(...)`, a copy `list(parts)` / `[*parts]` of the split
+    result whose positions are then overwritten by unconditional subscript / slice stores, or a local bound to one
+    of these."""
+    bad = AnalysisError(f"{fi.fq}: urlunsplit argument is not a literal 5-tuple")
+    if arg is None or depth > 4:
+        raise bad
     if isinstance(arg, ast.Name):
-        vals = [v for _, v in astq.assigns_to(fi.node, arg.id)]
-        if len(vals) == 1 and vals[0] is not None:
-            arg = vals[0]
+        vals = [(st, v) for st, v in astq.assigns_to(fi.node, arg.id)]
+        if len(vals) != 1 or vals[0][1] is None:
+            raise bad
+        elts = _five(flow, fi, vals[0][1], call, depth + 1)
+        return _apply_stores(fi, arg.id, elts, vals[0][0], call)
     if isinstance(arg, ast.Call) and isinstance(arg.func, ast.Attribute) and arg.func.attr == "_replace" and not arg.args and isinstance(arg.func.value, ast.Name):
         # the split result with some fields replaced: the other fields are carried over as they are
         recv = arg.func.value
-        src = flow.leaves(recv)
-        if src and all(x.kind == "call" and x.key == "urllib.parse.urlsplit" and not x.ops for x in src) and all(k.arg in SLOT for k in arg.keywords):
+        if _is_split_result(flow, recv) and all(k.arg in SLOT for k in arg.keywords):
             given = {k.arg: k.value for k in arg.keywords}
-            elts: list[ast.AST] = []
-            for name in SLOT:
-                if name in given:
-                    elts.append(given[name])
-                else:
-                    a = ast.copy_location(ast.Attribute(value=recv, attr=name, ctx=ast.Load()), arg)
-                    a._parent = getattr(arg, "_parent", None)  # type: ignore[attr-defined]
-                    elts.append(a)
-            return cs[0], elts
+            return [given.get(name, dflt) for name, dflt in zip(SLOT, _field_reads(recv, arg))]
+        raise bad
+    if isinstance(arg, ast.Call) and dotted(arg.func) and flow.resolve(dotted(arg.func)) == "urllib.parse.SplitResult" and not any(isinstance(x, ast.Starred) for x in arg.args) and all(k.arg in SLOT for k in arg.keywords):
+        given = dict(zip(SLOT, arg.args))
+        given.update({k.arg: k.value for k in arg.keywords})
+        if len(given) == 5:
+            return [given[name] for name in SLOT]
+        raise bad
+    inner = None
+    if isinstance(arg, ast.Call) and dotted(arg.func) and flow.resolve(dotted(arg.func)) in ("builtins.list", "builtins.tuple") and len(arg.args) == 1 and not arg.keywords:
+        inner = arg.args[0]
+    elif isinstance(arg, (ast.List, ast.Tuple)) and len(arg.elts) == 1 and isinstance(arg.elts[0], ast.Starred):
+        inner = arg.elts[0].value
+    if inner is not None:
+        if isinstance(inner, ast.Name) and _is_split_result(flow, inner):
+            return _field_reads(inner, arg)
+        return _five(flow, fi, inner, call, depth + 1)
     if not isinstance(arg, (ast.Tuple, ast.List)) or len(arg.elts) != 5 or any(isinstance(x, ast.Starred) for x in arg.elts):
-        raise AnalysisError(f"{fi.fq}: urlunsplit argument is not a literal 5-tuple")
-    return cs[0], list(arg.elts)
+        raise bad
+    return list(arg.elts)
+
+
+def _apply_stores(fi: FuncInfo, name: str, elts: list[ast.AST], born: ast.AST, call: ast.Call) -> list[ast.AST]:
+    """positions of the local 5-sequence `name` overwritten between its creation and the urlunsplit call; anything
+    that is not an unconditional, constant-position store makes the slots undecidable (AnalysisError)."""
+    elts = list(elts)
+    body = list(fi.node.body)  # type: ignore[attr-defined]
+    for n in walk_no_nested(fi.node):
+        tgs = n.targets if isinstance(n, ast.Assign) else [n.target] if isinstance(n, (ast.AugAssign, ast.AnnAssign)) else []
+        hit = [tg for tg in tgs if isinstance(tg, ast.Subscript) and astq.is_name(tg.value, name)]
+        grows = isinstance(n, ast.Call) and isinstance(n.func, ast.Attribute) and astq.is_name(n.func.value, name) and n.func.attr in ("append", "extend", "insert", "pop", "remove", "clear", "reverse", "sort", "__setitem__")
+        if grows or isinstance(n, ast.Delete) and any(isinstance(tg, ast.Subscript) and astq.is_name(tg.value, name) for tg in n.targets):
+            raise AnalysisError(f"{fi.fq}: the sequence `{name}` handed to urlunsplit is restructured in place (`{norm(n)[:50]}`): slots undecidable")
+        if not hit:
+            continue
+        if not isinstance(n, ast.Assign) or len(n.targets) != 1 or n not in body or not (born.lineno < n.lineno <= call.lineno):
+            raise AnalysisError(f"{fi.fq}: conditional or compound store into `{name}` (`{norm(n)[:50]}`): urlunsplit slots undecidable")
+        sl = hit[0].slice
+
+        def const_int(x: ast.AST | None, default: int) -> int:
+            if x is None:
+                return default
+            if isinstance(x, ast.UnaryOp) and isinstance(x.op, ast.USub) and isinstance(x.operand, ast.Constant) and type(x.operand.value) is int:
+                return 5 - x.operand.value
+            if isinstance(x, ast.Constant) and type(x.value) is int and x.value >= 0:
+                return x.value
+            raise AnalysisError(f"{fi.fq}: store into `{name}` at a non-constant position (`{norm(n)[:50]}`)")
+
+        if isinstance(sl, ast.Slice):
+            lo, hi = const_int(sl.lower, 0), min(const_int(sl.upper, 5), 5)
+            v = n.value
+            if sl.step is not None or not isinstance(v, (ast.List, ast.Tuple)) or any(isinstance(x, ast.Starred) for x in v.elts) or len(v.elts) != hi - lo:
+                raise AnalysisError(f"{fi.fq}: slice store into `{name}` does not keep the five positions (`{norm(n)[:50]}`)")
+            elts[lo:hi] = list(v.elts)
+        else:
+            i = const_int(sl, 0)
+            if not 0 <= i < 5:
+                raise AnalysisError(f"{fi.fq}: store into `{name}` outside the five positions (`{norm(n)[:50]}`)")
+            elts[i] = n.value
+    return elts
+
+
+def _unsplit_slots(flow: Flow, fi: FuncInfo) -> tuple[ast.Call, list[ast.AST]]:
+    cs = _calls_to(flow, fi, "urllib.parse.urlunsplit")
+    if not cs:
+        # `<split result>.geturl()` is urlunsplit(<split result>)
+        gs = [c for c in astq.method_calls(fi.node, "geturl", nested=False) if not c.args and not c.keywords]
+        if len(gs) == 1:
+            return gs[0], _five(flow, fi, gs[0].func.value, gs[0])  # type: ignore[attr-defined]
+    if len(cs) != 1:
+        raise AnalysisError(f"{fi.fq}: expected one urlunsplit call, found {len(cs)}")
+    return cs[0], _five(flow, fi, cs[0].args[0] if cs[0].args and not cs[0].keywords else None, cs[0])
 
 
 def _dedupe(lvs: list[Leaf]) -> list[Leaf]:
@@ -415,11 +543,21 @@ def _dedupe(lvs: list[Leaf]) -> list[Leaf]:
     return out
 
 
-def _route(ctx: Ctx, rule: str, fi: FuncInfo, flow: Flow, elts: list[ast.AST], accept, keep=None) -> dict[str, list[Leaf]]:
+def _inside(n: ast.AST, container: ast.AST) -> bool:
+    cur: ast.AST | None = n
+    while cur is not None:
+        if cur is container:
+            return True
+        cur = getattr(cur, "_parent", None)
+    return False
+
+
+def _route(ctx: Ctx, rule: str, fi: FuncInfo, flow: Flow, elts: list[ast.AST], accept, keep=None, sink: ast.AST | None = None) -> dict[str, list[Leaf]]:
     """common slot discipline. ``accept(attr, leaf) -> (ok, fact)`` judges the operations applied to ``parts.attr``.
     Returns attr -> accepted leaves."""
     seen: dict[str, list[Leaf]] = {}
     fn = fi.name
+    _failed_routes: set[str] = set()
     for slot_name, pos in SLOT.items():
         lvs = []
         for l0 in _dedupe(flow.leaves(elts[pos])):
@@ -436,6 +574,10 @@ def _route(ctx: Ctx, rule: str, fi: FuncInfo, flow: Flow, elts: list[ast.AST], a
                     if not okc:
                         ctx.ob(rule, f"{fn}: {slot_name} slot constant is ASCII", False, f"constant {v!r}", fi, l.node, f"{fn} {slot_name} const {v!r}")
                     continue
+                if l.kind in ("call", "other"):
+                    # the value of a call that is not looked into / an expression form the origin analysis does not
+                    # read: where it comes from is not known - undecided, not a violation
+                    raise AnalysisError(f"{fi.fq}: cannot follow `{l.text()}` (reaches urlunsplit slot {pos}, {slot_name}): origin of the value not understood")
                 ctx.ob(rule, f"{fn}: {slot_name} slot is built from the split URL only", False, f"`{l.text()}` reaches urlunsplit slot {pos} ({slot_name})", fi, l.node, f"{fn} {slot_name} foreign {l.text()}")
                 continue
             if attr not in allowed:
@@ -445,8 +587,16 @@ def _route(ctx: Ctx, rule: str, fi: FuncInfo, flow: Flow, elts: list[ast.AST], a
             ctx.ob(rule, f"{fn}: parts.{attr} -> {slot_name} slot", ok, fact, fi, l.node, f"{fn} route {attr}")
             if ok:
                 seen.setdefault(attr, []).append(l)
+            else:
+                _failed_routes.add(f"{fn} route {attr}")
     for attr in ("scheme", "hostname", "username", "password", "path", "query", "fragment"):
         if attr not in seen:
+            # dropped, or handed to something the origin analysis does not follow?  Only the first is a violation.
+            reads = [n for n in walk_no_nested(fi.node) if isinstance(n, ast.Attribute) and n.attr == attr and isinstance(n.ctx, ast.Load) and isinstance(n.value, ast.Name) and _is_split_result(flow, n.value)]
+            gone = [norm(top)[:60] for n in reads for top in escapes(flow, n) if sink is None or not _inside(top, sink)]
+            judged = any(id(l.node) == id(n) for lv in seen.values() for l in lv for n in reads)
+            if gone and not judged and not any(f"{fn} route {attr}" == o_key for o_key in _failed_routes):
+                raise AnalysisError(f"{fi.fq}: parts.{attr} flows into `{gone[0]}`, which is not followed to urlunsplit: cannot decide whether it is carried over")
             ctx.ob(rule, f"{fn}: parts.{attr} is carried over", False, f"no accepted route from parts.{attr} to urlunsplit", fi, fi.node, f"{fn} carries {attr}")
     return seen
 
@@ -457,7 +607,7 @@ def _route(ctx: Ctx, rule: str, fi: FuncInfo, flow: Flow, elts: list[ast.AST], a
 
 def _r15_3(ctx: Ctx, folder: Folder, mk: FuncInfo, u2i: FuncInfo, unq: dict[str, _Unquoter]) -> dict[str, str]:
     flow = Flow(ctx.repo, u2i)
-    _, elts = _unsplit_slots(flow, u2i)
+    sink, elts = _unsplit_slots(flow, u2i)
     m = u2i.module
     use: dict[str, str] = {}
     idna_fq: list[str] = []
@@ -482,7 +632,7 @@ def _r15_3(ctx: Ctx, folder: Folder, mk: FuncInfo, u2i: FuncInfo, unq: dict[str,
         return False, f"parts.{attr} through `{tgt}`, which is not a {mk.name} table"
 
     # helpers are looked through, except the unquoter tables themselves and whatever decodes the host name
-    seen = _route(ctx, "R15.3", u2i, flow, elts, accept, keep=lambda attr, fq: attr == "hostname")
+    seen = _route(ctx, "R15.3", u2i, flow, elts, accept, keep=lambda attr, fq: attr == "hostname", sink=sink)
     ctx.floor("R15.3", "uri_to_iri component routes", sum(len(v) for v in seen.values()), 7)
 
     # the IDNA decoder decodes IDNA
@@ -638,6 +788,16 @@ class _Walk:
                 return ("zip", subs, fq != "builtins.zip", astq.const_str(fill) if fill is not None else None)
             if fq == "builtins.iter" and len(e.args) == 1 and self.is_split(e.args[0]):
                 return ("iter", None)
+            if fq == "builtins.range" and 1 <= len(e.args) <= 3 and not e.keywords:
+                # positions of the split list: range(len(S)) / range(a, len(S)) / range(a, len(S), step)
+                stop = e.args[0] if len(e.args) == 1 else e.args[1]
+                consts = [a for i, a in enumerate(e.args) if not (a is stop)]
+                if isinstance(stop, ast.Call) and self._fq(stop) == "builtins.len" and len(stop.args) == 1 and self.is_split(stop.args[0]) and all(isinstance(a, ast.Constant) and type(a.value) is int for a in consts):
+                    start = e.args[0].value if len(e.args) >= 2 else 0  # type: ignore[attr-defined]
+                    step = e.args[2].value if len(e.args) == 3 else 1  # type: ignore[attr-defined]
+                    if start >= 0 and step in (1, 2):
+                        return ("range", start, step)
+                return None
             if fq in ("builtins.list", "builtins.tuple") and len(e.args) == 1:
                 return self.stream(e.args[0], depth + 1)
             return None
@@ -669,6 +829,10 @@ class _Walk:
                 env[target.elts[1].id] = ("piece", "index", st[2])
                 return True
             return False
+        if st[0] == "range" and isinstance(target, ast.Name):
+            env[target.id] = ("index",)  # the pieces are read as S[index]
+            self.index_names.add(target.id)
+            return True
         if st[0] == "zip" and isinstance(target, (ast.Tuple, ast.List)) and len(target.elts) == len(st[1]):
             return all(self.bind(tg, sub, env) for tg, sub in zip(target.elts, st[1]))
         return False
@@ -766,6 +930,17 @@ class _Walk:
                 else:
                     out.append((("other", f"{x.id} bound by {d.kind}"), ()))
             return out or [(("other", x.id), ())]
+        if isinstance(x, ast.Subscript) and not isinstance(x.slice, ast.Slice) and self.is_split(x.value) and self.parity is not None:
+            # the piece at the walk's own position (read through the index variable or a plain alias of it)
+            i = x.slice
+            hops = 0
+            while isinstance(i, ast.Name) and i.id not in self.index_names and hops < 3:
+                d = self._single_def(i)
+                if d is None or d.kind not in ("assign", "walrus") or d.index is not None or not isinstance(d.value, ast.Name):
+                    break
+                i, hops = d.value, hops + 1
+            if isinstance(i, ast.Name) and i.id in self.index_names:
+                return [(("piece", self.parity % 2), ())]
         if isinstance(x, ast.Call):
             fq = self._fq(x)
             if fq in ("urllib.parse.unquote", "urllib.parse.unquote_plus") and x.args:
@@ -816,7 +991,10 @@ class _Walk:
                     out.append(n.value)  # text accumulated with +=
             elif isinstance(n, ast.Yield) and n.value is not None:
                 out.append(n.value)
-        return sorted(out, key=lambda x: (x.lineno, x.col_offset))  # type: ignore[attr-defined]
+        flat: list[ast.AST] = []
+        for x in sorted(out, key=lambda x: (x.lineno, x.col_offset)):  # type: ignore[attr-defined]
+            flat += _concat_parts(x)
+        return flat
 
     def nexts_of(self, a: ast.AST, it_name: str | None) -> int:
         return sum(1 for n in [a, *walk_no_nested(a)] if isinstance(n, ast.Call) and self._fq(n) == "builtins.next" and n.args and astq.is_name(n.args[0], it_name))
@@ -863,6 +1041,23 @@ class _Walk:
         return done, left, cyc[0]
 
 
+def _concat_parts(x: ast.AST) -> list[ast.AST]:
+    """`a + b` / f"{a}{b}" emit a then b."""
+    if isinstance(x, ast.BinOp) and isinstance(x.op, ast.Add):
+        return _concat_parts(x.left) + _concat_parts(x.right)
+    if isinstance(x, ast.JoinedStr):
+        out: list[ast.AST] = []
+        for v in x.values:
+            if isinstance(v, ast.FormattedValue):
+                if v.conversion != -1 or v.format_spec is not None:
+                    return [x]
+                out += _concat_parts(v.value)
+            else:
+                out.append(v)
+        return out
+    return [x]
+
+
 def _alternation(ctx: Ctx, mk: FuncInfo, mflow: Flow, sc: Scope, inner: ast.AST, split_c: ast.Call) -> None:
     w = _Walk(mflow, sc, inner, split_c)
     # every judged walk yields, per position parity (or per iteration for pairwise walks), the sequences of emissions
@@ -874,15 +1069,21 @@ def _alternation(ctx: Ctx, mk: FuncInfo, mflow: Flow, sc: Scope, inner: ast.AST,
     def expected(st: tuple, parity: int | None) -> list[str]:
         if st[0] == "enum":
             return ["free-unquoted"] if (parity - st[2]) % 2 == 0 else ["kept-raw"]
+        if st[0] == "range":
+            return ["free-unquoted"] if parity % 2 == 0 else ["kept-raw"]
         return ["free-unquoted", "kept-raw"]
 
     def parities(st: tuple) -> list[int | None]:
+        if st[0] == "range":
+            return [0, 1] if st[2] == 1 else [st[1] % 2]
         return [0, 1] if st[0] == "enum" else [None]
 
     def complete_stream(st: tuple) -> str:
         """'' when the walk visits every piece of the list, else why not."""
         if st[0] in ("iter", "enum"):
             return ""
+        if st[0] == "range":
+            return "" if st[1] == 0 and st[2] == 1 else f"range({st[1]}, len, {st[2]}) does not visit every piece"
         if st[0] == "zip":
             pars = [x[1] if x[0] == "par" else None for x in st[1]]
             if pars != [0, 1]:
@@ -902,6 +1103,24 @@ def _alternation(ctx: Ctx, mk: FuncInfo, mflow: Flow, sc: Scope, inner: ast.AST,
                 unknown.append(f"for over {st[0]}")
                 continue
             w.loop_env[id(n)] = env
+            if st[0] == "range" and st[2] == 2:
+                # every second position rewritten in place: `for i in range(p, len(S), 2): S[i] = f(S[i])`; the other
+                # positions stay as they are and the list is emitted whole afterwards
+                body = n.body
+                tgt = body[0].targets[0] if len(body) == 1 and isinstance(body[0], ast.Assign) and len(body[0].targets) == 1 else None
+                if not (isinstance(tgt, ast.Subscript) and w.is_split(tgt.value) and astq.is_name(tgt.slice, n.target.id) and not n.orelse):
+                    unknown.append("stride-2 loop over the positions that is not a plain in-place rewrite")
+                    continue
+                w.parity = st[1] % 2
+                alts = w.classify(body[0].value)  # type: ignore[attr-defined]
+                w.parity = None
+                k = w.kind(*alts[0]) if len(alts) == 1 else "one of " + "/".join(w.kind(*a) for a in alts)
+                recognised += 1
+                anchor = anchor or n
+                runs.append((f"positions [{st[1]}::2] rewritten in place", [k], st[1] == 0 and k == "free-unquoted", "" if st[1] == 0 else f"the loop starts at position {st[1]}"))
+                if st[1] == 0:
+                    runs.append(("positions [1::2] left in place", ["kept-raw"], True, ""))
+                continue
             recognised += 1
             anchor = anchor or n
             why = complete_stream(st)
@@ -970,7 +1189,7 @@ def _alternation(ctx: Ctx, mk: FuncInfo, mflow: Flow, sc: Scope, inner: ast.AST,
                 for cond in g.ifs:
                     if w.truth(cond) is not True:
                         remark = remark or f"`if {norm(cond)}` drops pieces"
-                elts = list(n.elt.elts) if isinstance(n.elt, (ast.Tuple, ast.List)) else [n.elt]
+                elts = [y for x in (list(n.elt.elts) if isinstance(n.elt, (ast.Tuple, ast.List)) else [n.elt]) for y in _concat_parts(x)]
                 kinds = []
                 amb = False
                 for x in elts:
@@ -1009,6 +1228,11 @@ def _alternation(ctx: Ctx, mk: FuncInfo, mflow: Flow, sc: Scope, inner: ast.AST,
     if not recognised:
         raise AnalysisError(f"{mk.fq}: no recognised walk over `{norm(split_c)}` that tells free pieces from kept escapes (alternation slot){': ' + '; '.join(unknown) if unknown else ''}")
     all_kinds = sorted({k for _, ks, _, _ in runs for k in ks})
+    blind = sorted({k for k in all_kinds if "other `" in k or "piece-of-unknown-position" in k})
+    if blind:
+        # something is emitted that the walk analysis cannot name (a call of a table entry, a foreign function, a
+        # piece whose position is not known): undecided, not a violation
+        raise AnalysisError(f"{mk.fq}: the walk over `{norm(split_c)}` emits {blind[:3]}, which cannot be classified as free piece / kept escape (alternation slot)")
     shape_ok = all_kinds == ["free-unquoted", "kept-raw"]
     ctx.ob("R15.3", "the walk over the split pieces emits free pieces unquoted and kept escapes untouched", shape_ok, f"emissions: {[(lab, ks) for lab, ks, _, _ in runs]}", mk, anchor, "emission kinds")
     bad = [(lab, ks, rem) for lab, ks, ok, rem in runs if not ok]
@@ -1112,7 +1336,7 @@ def _safe_obligations(ctx: Ctx, fi: FuncInfo, call: ast.Call, comp: str, S: str,
 
 def _r15_2(ctx: Ctx, folder: Folder, i2u: FuncInfo) -> None:
     flow = Flow(ctx.repo, i2u)
-    _, elts = _unsplit_slots(flow, i2u)
+    sink, elts = _unsplit_slots(flow, i2u)
     quotes: dict[tuple[int, str], tuple[ast.Call, str, Scope | None]] = {}
 
     def accept(attr: str, l: Leaf):
@@ -1127,12 +1351,26 @@ def _r15_2(ctx: Ctx, folder: Folder, i2u: FuncInfo) -> None:
         quotes[(id(l.ops[0].node), attr)] = (l.ops[0].node, attr, l.ops[0].sc)
         return True, f"parts.{attr} through `{norm(l.ops[0].node)[:70]}`"
 
-    seen = _route(ctx, "R15.2", i2u, flow, elts, accept)
+    seen = _route(ctx, "R15.2", i2u, flow, elts, accept, sink=sink)
     ctx.floor("R15.2", "iri_to_uri component routes", sum(len(v) for v in seen.values()), 7)
     for call, attr, qsc in sorted(quotes.values(), key=lambda p: (p[0].lineno, p[1])):
         S = _fold_safe(folder, i2u, call, module=_module_of(ctx.repo, call, i2u.module), scope=qsc)
         _safe_obligations(ctx, i2u, call, attr, S, f"quote of parts.{attr}", True, "")
     ctx.floor("R15.2", "iri_to_uri quote calls", len(quotes), 3)
+
+
+def _rebound_between(name: ast.Name, outer: ast.AST) -> bool:
+    """is the name a parameter / local of a function nested between its occurrence and `outer` (so not outer's)?"""
+    cur = getattr(name, "_parent", None)
+    while cur is not None and cur is not outer:
+        if isinstance(cur, (ast.FunctionDef, ast.AsyncFunctionDef, ast.Lambda)):
+            a = cur.args
+            if name.id in [x.arg for x in a.posonlyargs + a.args + a.kwonlyargs] + ([a.vararg.arg] if a.vararg else []) + ([a.kwarg.arg] if a.kwarg else []):
+                return True
+            if not isinstance(cur, ast.Lambda) and any(isinstance(x, ast.Name) and x.id == name.id and isinstance(x.ctx, ast.Store) for x in walk_no_nested(cur)):
+                return True
+        cur = getattr(cur, "_parent", None)
+    return False
 
 
 def _r15_2_reconstruct(ctx: Ctx, folder: Folder) -> None:
@@ -1166,8 +1404,9 @@ def _r15_2_reconstruct(ctx: Ctx, folder: Folder) -> None:
     # every use of the three parameters as a value is inside a quote()
     nuse = 0
     for p in comp_of:
-        for n in walk_no_nested(g.node):
-            if isinstance(n, ast.Name) and n.id == p and isinstance(n.ctx, ast.Load):
+        for n in ast.walk(g.node):
+            # uses in the function and, as a free variable, in the local functions it defines (a generator of pieces)
+            if isinstance(n, ast.Name) and n.id == p and isinstance(n.ctx, ast.Load) and not _rebound_between(n, g.node):
                 for top in escapes(flow, n):
                     nuse += 1
                     lv = [l for l0 in flow.leaves(top) for l in expand(flow, l0) if l.kind == "param" and l.key == p]
@@ -1234,24 +1473,37 @@ def _stores(flow: Flow, fi: FuncInfo) -> list[tuple[str, ast.AST, ast.AST]]:
     return _stores_in(fi.node)
 
 
+def _text_keys(k: ast.AST | None, fn: ast.AST) -> list[str]:
+    """the text keys a key expression stands for: a literal, or a variable running over a literal table."""
+    if k is None:
+        return []
+    c = astq.const_str(k)
+    if c is not None:
+        return [c] if c in TEXT_KEYS else []
+    vals = table_values(k, fn) if isinstance(k, ast.Name) else None
+    return [v for v in dict.fromkeys(vals or []) if v in TEXT_KEYS]
+
+
 def _stores_in(fn: ast.AST) -> list[tuple[str, ast.AST, ast.AST]]:
-    """(key, value expression, node) for every store under one of the text keys in the function (dict literal entry,
-    subscript assignment, setdefault / keyword)."""
+    """(key, value expression, node) for every store under one of the text keys in the function (dict literal /
+    dict comprehension entry, subscript assignment, setdefault / keyword); the key may be a variable that runs over a
+    literal table of keys (one store per text key of the table)."""
     out = []
     for n in walk_no_nested(fn):
         if isinstance(n, ast.Dict):
             for k, v in zip(n.keys, n.values):
-                if k is not None and astq.const_str(k) in TEXT_KEYS:
-                    out.append((astq.const_str(k), v, k))
+                out += [(key, v, k) for key in _text_keys(k, fn)]
+        elif isinstance(n, ast.DictComp):
+            out += [(key, n.value, n.key) for key in _text_keys(n.key, fn)]
         elif isinstance(n, (ast.Assign, ast.AnnAssign)):
             tgs = n.targets if isinstance(n, ast.Assign) else [n.target]
             for tg in tgs:
-                if isinstance(tg, ast.Subscript) and astq.const_str(tg.slice) in TEXT_KEYS and n.value is not None:
-                    out.append((astq.const_str(tg.slice), n.value, n))
-        elif isinstance(n, ast.AugAssign) and isinstance(n.target, ast.Subscript) and astq.const_str(n.target.slice) in TEXT_KEYS:
-            out.append((astq.const_str(n.target.slice), n.value, n))
-        elif isinstance(n, ast.Call) and isinstance(n.func, ast.Attribute) and n.func.attr == "setdefault" and len(n.args) == 2 and astq.const_str(n.args[0]) in TEXT_KEYS:
-            out.append((astq.const_str(n.args[0]), n.args[1], n))
+                if isinstance(tg, ast.Subscript) and n.value is not None:
+                    out += [(key, n.value, n) for key in _text_keys(tg.slice, fn)]
+        elif isinstance(n, ast.AugAssign) and isinstance(n.target, ast.Subscript):
+            out += [(key, n.value, n) for key in _text_keys(n.target.slice, fn)]
+        elif isinstance(n, ast.Call) and isinstance(n.func, ast.Attribute) and n.func.attr == "setdefault" and len(n.args) == 2:
+            out += [(key, n.args[1], n) for key in _text_keys(n.args[0], fn)]
         elif isinstance(n, ast.Call):
             for kw in n.keywords:
                 if kw.arg in TEXT_KEYS:
@@ -1287,8 +1539,8 @@ def _read_sites(flow: Flow, fi: FuncInfo) -> list[tuple[str, ast.AST]]:
                 continue
             sc = flow.scope_of(n)
             er = flow.environ_read(n, sc)
-            if er is not None and er[0] in TEXT_KEYS:
-                out.append((er[0], n))
+            if er is not None and any(k in TEXT_KEYS for k in er[0]):
+                out += [(k, n) for k in er[0] if k in TEXT_KEYS]  # one read per key of a table-driven read
                 continue
             if isinstance(n, ast.Call) and any(astq.const_str(a) in TEXT_KEYS for a in n.args) and flow.callee_scope(n, sc) is not None:
                 ks = [astq.const_str(a) for a in n.args if astq.const_str(a) in TEXT_KEYS]
@@ -1485,17 +1737,46 @@ def _accumulations(ctx: Ctx, fi: FuncInfo, sc: Scope) -> int:
     cfg = sc.cfg
     nacc = 0
     for n in walk_no_nested(sc.fn):
+        flipped = False
+        if isinstance(n, ast.Call) and isinstance(n.func, ast.Attribute) and isinstance(n.func.value, ast.Name) and not n.keywords and isinstance(getattr(n, "_parent", None), ast.Expr):
+            # the remainder kept as a list of segments: L.insert(0, p) / L.appendleft(p) put p in front, L.append(p)
+            # behind - which is the same order when every reader of L reverses it
+            acc, m = n.func.value.id, n.func.attr
+            if m == "insert" and len(n.args) == 2 and isinstance(n.args[0], ast.Constant) and n.args[0].value == 0:
+                front, piece = True, n.args[1]
+            elif m == "appendleft" and len(n.args) == 1:
+                front, piece = True, n.args[0]
+            elif m == "append" and len(n.args) == 1:
+                front, piece = False, n.args[0]
+            else:
+                continue
+            end = _peeled_end(sc, piece)
+            if end is None:
+                continue
+            if not front:
+                reads = [x for x in walk_no_nested(sc.fn) if isinstance(x, ast.Name) and x.id == acc and isinstance(x.ctx, ast.Load) and x is not n.func.value]
+                rev = [x for x in reads if _reversed_read(x)]
+                if rev and len(rev) != len(reads):
+                    continue  # read both ways: not understood (the floor reports it when nothing else is found)
+                flipped = bool(rev)
+            nacc += 1
+            in_front = front != flipped
+            ok = (end == "right") == in_front
+            ctx.ob("R15.6", "remainder keeps request order", ok, f"`{norm(n)}`: piece peeled from the {end} end is put {'in front of' if in_front else 'behind'} the accumulated `{acc}`" + (" (read reversed)" if flipped else ""), fi, n, "dispatcher remainder order")
+            continue
         if not (isinstance(n, ast.Assign) and len(n.targets) == 1 and isinstance(n.targets[0], ast.Name)):
             continue
         acc = n.targets[0].id
         val = n.value
         pieces: list[ast.AST] = []
-        if isinstance(val, ast.JoinedStr):
+        if isinstance(val, (ast.List, ast.Tuple)) and any(isinstance(x, ast.Starred) and astq.is_name(x.value, acc) for x in val.elts):
+            pieces = [x.value if isinstance(x, ast.Starred) else x for x in val.elts]  # [p, *acc]
+        elif isinstance(val, ast.JoinedStr):
             pieces = [v.value if isinstance(v, ast.FormattedValue) else v for v in val.values]
         elif isinstance(val, ast.BinOp) and isinstance(val.op, ast.Add):
             def flat(e):
                 return flat(e.left) + flat(e.right) if isinstance(e, ast.BinOp) and isinstance(e.op, ast.Add) else [e]
-            pieces = flat(val)
+            pieces = [x.elts[0] if isinstance(x, (ast.List, ast.Tuple)) and len(x.elts) == 1 and not isinstance(x.elts[0], ast.Starred) else x for x in flat(val)]  # [p] + acc
         elif isinstance(val, ast.Call) and isinstance(val.func, ast.Attribute) and val.func.attr == "join" and len(val.args) == 1 and isinstance(val.args[0], (ast.Tuple, ast.List)):
             sep = val.func.value
             for i, x in enumerate(val.args[0].elts):
@@ -1517,6 +1798,17 @@ def _accumulations(ctx: Ctx, fi: FuncInfo, sc: Scope) -> int:
         ok = (peeled == "right" and ppos < selfpos[0]) or (peeled == "left" and ppos > selfpos[0])
         ctx.ob("R15.6", "remainder keeps request order", ok, f"`{norm(n)}`: piece peeled from the {peeled} end at position {ppos}, accumulated `{acc}` at position {selfpos[0]}", fi, n, "dispatcher remainder order")
     return nacc
+
+
+def _reversed_read(x: ast.Name) -> bool:
+    """`reversed(x)` / `x[::-1]`."""
+    p = getattr(x, "_parent", None)
+    if isinstance(p, ast.Call) and isinstance(p.func, ast.Name) and p.func.id == "reversed" and len(p.args) == 1 and p.args[0] is x:
+        return True
+    if isinstance(p, ast.Subscript) and p.value is x and isinstance(p.slice, ast.Slice) and p.slice.lower is None and p.slice.upper is None:
+        st = p.slice.step
+        return isinstance(st, ast.UnaryOp) and isinstance(st.op, ast.USub) and isinstance(st.operand, ast.Constant) and st.operand.value == 1
+    return False
 
 
 def _peeled_end(sc: Scope, p: ast.AST, depth: int = 0) -> str | None:
